@@ -134,4 +134,100 @@ example :
     f (pairCand (around {} (fun _ c => f c) (fun _ => 0) t).best 1).content = false := by
   decide
 
+/-- **minimize-balanced stops only at its fixpoint.**  For EVERY deterministic test `f`, smallest
+chunk size 1, repeat mode `last` or `always`, no time limit, any `--max ≥ 1`, any clock, and every
+well-formed testcase with non-empty atoms: if at least two atoms remain in the final testcase then
+for every remaining atom `j` the test rejects `balTarget best j` — the file without atom `j` when
+its brackets are balanced, the file without `j` and its partner when they are not and the partner
+search (`partnerOf`, characterised by `partnerOf_spec`) finds one. -/
+theorem C13_balanced_fixpoint (cfg : Cfg) (f : Bytes → Bool) (clk : Clock) (t : Testcase)
+    (hwf : t.WF) (hne : ∀ p ∈ t.parts, p ≠ []) (hmin : cfg.min ≤ 1) (hmax : 1 ≤ cfg.max)
+    (hrep : cfg.rep = .last ∨ cfg.rep = .always) (hstop : cfg.stopAfter = none) :
+    2 ≤ (balanced cfg (fun _ c => f c) clk t).best.len →
+    ∀ j, j < (balanced cfg (fun _ c => f c) clk t).best.len →
+      ∀ c, balTarget (balanced cfg (fun _ c => f c) clk t).best j = some c → f c.content = false := by
+  obtain ⟨-, b1, b2, -⟩ := C09_bound_pairs cfg (fun _ c => f c) clk t hwf hmax
+  have hs : stopAt cfg clk = none := by simp [stopAt, hstop]
+  have hfin : max cfg.min 1 = 1 := by omega
+  have hcs : 1 ≤ min cfg.max (Util.lp2 t.len) := by have := Util.lp2_pos t.len; omega
+  unfold balanced at b1 b2 ⊢
+  simp only [hs, hfin] at b1 b2 ⊢
+  obtain ⟨it', g', hq, hr⟩ := pairsOuter_last_pass f cfg clk (fun cs it => balPass (fun _ c => f c) clk none cs it) hrep
+    (fun cs it hc hg => balPass_ginv f clk none cs it hc hg)
+    (pairsFuel t) _ { best := t } hcs ⟨hwf, hne, by intro c hc; simp at hc⟩ b1 b2
+  rw [hr] at b1 b2 ⊢
+  obtain ⟨q1, q2⟩ := balPass_quiet f clk it' hq b1 b2
+  have gfin := balPass_ginv f clk none 1 it' (Nat.le_refl 1) g'
+  intro h2 j hj c hc
+  rw [q1] at h2 hj hc
+  have hmem := q2 h2 j hj c hc
+  -- the target is strictly shorter than the best testcase
+  have hshort : c.content.length < it'.best.content.length := by
+    unfold balTarget at hc
+    split at hc
+    · simp only [Option.some.injEq] at hc
+      subst hc
+      have h := balCand1_ok 1 { summary := [], chunkStart := j, lhs := j } { best := it'.best } g'.wf g'.nonempty
+        (Nat.le_refl 1) hj
+      rw [balCand1_one _ _ hj] at h
+      exact h.shorter
+    · split at hc
+      · simp only [Option.some.injEq] at hc
+        subst hc
+        have hge := findRhs_ge (List.replicate it'.best.len true) (balLists it'.best).1 (balLists it'.best).2.1 (balLists it'.best).2.2
+          ((List.replicate it'.best.len true).drop (j + 1)) j (balOf (balLists it'.best).1 (balLists it'.best).2.1 (balLists it'.best).2.2 j)
+        have hle := findRhs_le (List.replicate it'.best.len true) (balLists it'.best).1 (balLists it'.best).2.1 (balLists it'.best).2.2
+          ((List.replicate it'.best.len true).drop (j + 1)) j (balOf (balLists it'.best).1 (balLists it'.best).2.1 (balLists it'.best).2.2 j)
+        have hlen : ((List.replicate it'.best.len true).drop (j + 1)).length = it'.best.len - (j + 1) := by simp
+        have h := balCand2_ok 1 { summary := List.replicate it'.best.len true, chunkStart := j, lhs := j } { best := it'.best }
+          (partnerOf it'.best j).1 g'.wf g'.nonempty (Nat.le_refl 1) hj
+        rw [balCand2_one _ _ _ rfl rfl (by unfold partnerOf; exact hge) (by unfold partnerOf; simp only; omega)] at h
+        exact h.shorter
+      · exact absurd hc (by simp)
+  cases hfv : f c.content with
+  | false => rfl
+  | true =>
+    have := gfin.tried _ hmem hfv
+    rw [q1] at this
+    omega
+
+/-- The partner used in `C13_balanced_fixpoint`, in the property's words: for an unbalanced atom
+`j` the search reports a partner exactly when there is a first later atom `j + d` at which the
+running balance of all three bracket kinds is back to zero with no kind negative (and not all
+zero) at the atoms in between, and it reports that atom.  (The literal reading without "no kind
+negative in between" is the recorded finding `partner-after-negative`, see
+`C13_literal_partner_counterexample`.) -/
+theorem C13_partner_characterised (t : Testcase) (j : Nat) (hj : j < t.len)
+    (hz : balZero (balOf (balLists t).1 (balLists t).2.1 (balLists t).2.2 j) = false) :
+    (balZero (partnerOf t j).2 = true →
+      ∃ d, j + d < t.len ∧ (partnerOf t j).1 = j + d ∧
+        FirstZero (balLists t).1 (balLists t).2.1 (balLists t).2.2 j (balOf (balLists t).1 (balLists t).2.1 (balLists t).2.2 j) d) ∧
+    (∀ d, j + d < t.len →
+      FirstZero (balLists t).1 (balLists t).2.1 (balLists t).2.2 j (balOf (balLists t).1 (balLists t).2.1 (balLists t).2.2 j) d →
+      balZero (partnerOf t j).2 = true ∧ (partnerOf t j).1 = j + d) :=
+  partnerOf_spec t j hj hz
+
+/-- non-vacuity and the shape of the fixpoint: `{ x } y` with a test that needs `x` and balanced
+braces: the brace pair goes together, `x y` remains, and `y` (balanced) cannot be deleted... it can:
+the test accepts `x`; the run ends with `x` alone — fewer than two atoms, nothing is claimed.
+With a test that also needs `y` the run ends with `x y` and both single deletions are rejected. -/
+example :
+    let t : Testcase := { before := [], parts := [[0x7B], [0x78], [0x7D], [0x79]], reducible := [true, true, true, true], after := [] }
+    let f : Bytes → Bool := fun c => c.contains 0x78 && c.contains 0x79 && c.count 0x7B == c.count 0x7D
+    (balanced {} (fun _ c => f c) (fun _ => 0) t).best.parts = [[0x78], [0x79]] ∧
+    (balTarget (balanced {} (fun _ c => f c) (fun _ => 0) t).best 0).map (·.parts) = some [[0x79]] ∧
+    (balTarget (balanced {} (fun _ c => f c) (fun _ => 0) t).best 1).map (·.parts) = some [[0x78]] := by
+  decide
+
+/-- The recorded finding `partner-after-negative` as a theorem about the model: lines `}`, `x`,
+`{` and a test that accepts exactly the file `x`: the run ends with all three lines although
+deleting `}` together with `{` — where the running balance first returns to zero — is accepted;
+the search of the code gives up at `x` because the balance is negative there. -/
+theorem C13_literal_partner_counterexample :
+    let t : Testcase := { before := [], parts := [[0x7D], [0x78], [0x7B]], reducible := [true, true, true], after := [] }
+    let f : Bytes → Bool := fun c => c == [0x78]
+    (balanced {} (fun _ c => f c) (fun _ => 0) t).best = t ∧
+    f ((t.rmslice 2 3).rmslice 0 1).content = true ∧ balTarget t 0 = none := by
+  decide
+
 end Strat
